@@ -20,6 +20,8 @@ const PATHS: [(Option<(&str, &str)>, &str); 6] = [
     (None, "r.ts"), (Some(("B", "x")), "f.ts"), (Some(("B", "x")), "g.ts"),
 ];
 
+/// two contents of DIFFERENT lengths (a rewrite that does not truncate leaves a tail)
+fn content(v: usize, name: &str) -> String { if v == 1 { format!("content one of {name}, the long version of this file\n") } else { format!("2 {name}") } }
 fn artifacts(state: &[usize]) -> Vec<ArtifactPathAndContent> {
     let mut v = vec![];
     for (i, (tf, name)) in PATHS.iter().enumerate().take(state.len()) {
@@ -29,7 +31,7 @@ fn artifacts(state: &[usize]) -> Vec<ArtifactPathAndContent> {
                     type_and_field: tf.map(|(e, s)| EntityNameAndSelectableName { parent_entity_name: e.intern().into(), selectable_name: s.intern().into() }),
                     file_name: name.intern().into(),
                 },
-                file_content: format!("content {} of {}", state[i], name).into(),
+                file_content: content(state[i], name).into(),
             });
         }
     }
@@ -58,7 +60,7 @@ fn expected(state: &[usize]) -> (BTreeMap<String, String>, Vec<String>) {
     let mut d = vec![];
     for i in 0..state.len() {
         if state[i] > 0 {
-            f.insert(rel(i), format!("content {} of {}", state[i], PATHS[i].1));
+            f.insert(rel(i), content(state[i], PATHS[i].1));
             if let Some((e, s)) = PATHS[i].0 { d.push(e.to_string()); d.push(format!("{e}/{s}")); }
         }
     }
